@@ -17,7 +17,7 @@ Listings == ndJsonDeserialize(IOEnv.LV_LISTINGS)
 B(o) == Build(o.ty, <<o.raw>>)
 
 C15_AcceptReject(o) == (o.accepted <=> Accepts(o.raw)) /\ (~o.accepted => o.exc = "TaskError")
-C15_Normalised(o) == o.accepted => o.norm = Norm("p", o.raw)
+C15_Normalised(o) == o.accepted => KC(o.norm) = KC(Norm("p", o.raw))       \* dict keys compared by their string content
 C15_Frozen(o) == o.accepted => (o.frozen /\ o.hashable)
 C15_EqHash(o) == o.accepted => (o.eq_twin /\ o.neq_other_types)
 C15_Pickle(o) == o.accepted => (o.pickle_ok /\ o.pickle_after_run_clean)
@@ -31,7 +31,7 @@ C07_Distinct(k) == (Obs[k].accepted /\ Accepts(Obs[k].raw) /\ ~Obs[k].main_modul
                      \A j \in Earlier(k) :
                         /\ "same_key" \in DOMAIN Obs[k] => (j < k /\ Obs[j].key = Obs[k].key)
                         /\ (Obs[j].accepted /\ Accepts(Obs[j].raw) /\ ~Obs[j].main_module_type /\ Obs[j].key = Obs[k].key)
-                              => B(Obs[j]) = B(Obs[k])
+                              => KC(B(Obs[j])) = KC(B(Obs[k]))     \* the same tree, dict keys taken as their string content
 C09_Reconstruct(o) == o.accepted => o.recon_eq
 C09_ListedOnce(o) == o.accepted => /\ o.ran /\ o.listed_own = 1 /\ o.listed_elsewhere = 0
                                     /\ o.listed_key_ok /\ o.listed_meta_ok /\ o.listed_loads_stored
